@@ -492,7 +492,12 @@ func lhScenario(prop string, seed uint64) *core.Scenario {
 
 func runLH(c *Check, seed uint64, i int, tier string, st *core.Stats) {
 	rs := RunSeed(seed, c.ID, i)
-	sc := lhScenario(c.ID, rs)
+	runLHScenario(c, lhScenario(c.ID, rs), i, st, nil)
+}
+
+// runLHScenario runs one library history and minimises what it finds. keep, when set, restricts the
+// verdict to some oracles (the library-history arm of C09 judges instantiation only).
+func runLHScenario(c *Check, sc *core.Scenario, i int, st *core.Stats, keep func(oracle string) bool) {
 	res := hsim.RunLib(sc)
 	st.Evaluations++
 	if res.Harness != "" {
@@ -504,12 +509,14 @@ func runLH(c *Check, seed uint64, i int, tier string, st *core.Stats) {
 	for k, v := range res.Probes {
 		st.Probes[k] += v
 	}
-	st.AddDistinct(res.Finger)
+	if keep == nil {
+		st.AddDistinct(res.Finger)
+	}
 	nt := res.Probes["removed-alive-rule"] > 0 || res.Probes["build.duplicate-name"] > 0
 	if c.ID == "C17" {
 		nt = res.Probes["op.buildbad"] > 0 || res.Probes["op.buildfail"] > 0
 	}
-	if nt {
+	if nt && keep == nil {
 		st.AddNonTrivial(res.Finger)
 		ex, _ := hsim.LExtraOf(sc)
 		var ops []string
@@ -529,6 +536,9 @@ func runLH(c *Check, seed uint64, i int, tier string, st *core.Stats) {
 		st.AddSample(map[string]interface{}{"knowledge_bases": len(ex.KBs), "history": ops}, 3)
 	}
 	for _, v := range res.Violations {
+		if keep != nil && !keep(v.Oracle) {
+			continue
+		}
 		st.Probes["violation."+v.Oracle]++
 		if len(st.Found) >= maxFoundPerWorker {
 			continue
